@@ -171,7 +171,7 @@ PROPS = {
             "C06_stores_only_grow", "C06_capture_by_reference", "C06_write_seen_through_shared_cell",
             "C06_iteration_cells_distinct_repeat", "C06_iteration_cells_distinct_foreach",
             "C06_return_keeps_store", "C06_repeat_scope_exit", "C06_foreach_scope_exit",
-            "C06_cell_outlives_scope", "C06_closure_body_identity"]},
+            "C06_reachable_states_well_formed", "C06_cell_outlives_scope", "C06_closure_body_identity"]},
         n_quick=300, n_thorough=3000,
         gen_timeout=3000,
         release=False,
@@ -241,8 +241,8 @@ PROPS = {
             "runs that end in Timeout / Stackoverflow / CallStackOverflow / OutOfMemory are skipped and counted",
             "the theorems are about the reference semantics; the refinement theorem that ties Vm.v's open-upvalue list "
             "to RefSem's cells is stated in a comment of Properties/C06.v and not proved",
-            "C06_cell_outlives_scope assumes that the cell a closure record mentions is allocated when the record is "
-            "looked at (an invariant of reachable states that is not proved)",
+            "the iteration theorems speak about the unrolling relations repeat_iter / foreach_iter, which follow the "
+            "clauses of RefSem.F (tied to F by C06_repeat_scope_exit / C06_foreach_scope_exit)",
         ],
     ),
     "C15": dict(
